@@ -77,10 +77,26 @@ var (
 )
 
 func createMacro(init []byte, value byte) []byte {
-	word := make([]byte, 32)
+	if len(init) > 64 {
+		panic("harness: init code longer than two words")
+	}
+	word := make([]byte, 64)
 	copy(word, init)
-	return cat([]byte{opPUSH32}, word, push1(0), []byte{opMSTORE}, push1(byte(len(init))), push1(0), push1(value), []byte{opCREATE})
+	out := cat([]byte{opPUSH32}, word[:32], push1(0), []byte{opMSTORE})
+	if len(init) > 32 {
+		out = cat(out, []byte{opPUSH32}, word[32:], push1(32), []byte{opMSTORE})
+	}
+	return cat(out, push1(byte(len(init))), push1(0), push1(value), []byte{opCREATE})
 }
+
+// init codes that jump: a short one, a long one whose JUMPDEST lies far behind the end of the short
+// one, and one that jumps into the data of a PUSH (must fail). Two different init codes in one
+// transaction are what makes a jump-destination analysis that is cached per code matter.
+var (
+	initJumpShort    = []byte{0x60, 0x03, 0x56, 0x5b, 0x00}                                      // PUSH1 3, JUMP, JUMPDEST, STOP
+	initJumpFar      = append(append([]byte{0x60, 0x30, 0x56}, make([]byte, 45)...), 0x5b, 0x00) // PUSH1 48, JUMP, 45 x STOP, JUMPDEST (pc 48), STOP
+	initJumpIntoData = []byte{0x60, 0x04, 0x56, 0x60, 0x5b, 0x00}                                // PUSH1 4, JUMP, PUSH1 0x5b (pc 4 is push data), STOP
+)
 
 // target of a call macro: self (ADDRESS: the executing context), a named contract, the empty
 // account E or a precompile P1..P9.
@@ -197,6 +213,12 @@ func macroBytes(name string) []byte {
 		return createMacro(initRevert, 0)
 	case "CR_BIG":
 		return createMacro(initOversize, 0)
+	case "CR_JS":
+		return createMacro(initJumpShort, 0)
+	case "CR_JF":
+		return createMacro(initJumpFar, 0)
+	case "CR_JD":
+		return createMacro(initJumpIntoData, 0)
 	case "CALLNEW": // CALL the address on top of the stack (left there by CREATE), all gas, no value
 		return cat(push1(0), push1(0), push1(0), push1(0), push1(0), []byte{opDUP6, opGAS, opCALL})
 	case "CDL":
@@ -301,7 +323,7 @@ func fullAlphabet() []string {
 		"JD", "J0", "JF", "JBAD", "JI0", "JINT", "JIBAD",
 		"RET", "REV", "INV", "STOP",
 		"SD_SELF", "SD_CALLER", "SD_B", "SD_E",
-		"CR_OK", "CR_OKV", "CR_REV", "CR_BIG", "CALLNEW", "CDL", "CDC"}
+		"CR_OK", "CR_OKV", "CR_REV", "CR_BIG", "CR_JS", "CR_JF", "CR_JD", "CALLNEW", "CDL", "CDC"}
 	targets := []string{"self", "B", "C", "E", "P1", "P2", "P3", "P4", "P5", "P6", "P7", "P8", "P9"}
 	for _, to := range targets {
 		for _, g := range []string{"all", "2300", "0"} {
@@ -325,7 +347,7 @@ func reducedAlphabet() []string {
 		"JD", "J0", "JI0",
 		"RET", "REV", "INV", "STOP",
 		"SD_SELF", "SD_B",
-		"CR_OK", "CR_REV", "CR_BIG"}
+		"CR_OK", "CR_REV", "CR_BIG", "CR_JS", "CR_JF", "CR_JD"}
 	for _, to := range []string{"self", "B", "C"} {
 		l = append(l, "CALL:"+to+":0:all", "CALL:"+to+":1:all", "CALL:"+to+":1:0", "CALLCODE:"+to+":0:all", "DELEGATECALL:"+to+":all", "STATICCALL:"+to+":all")
 	}
